@@ -24,23 +24,30 @@ package cli
 //@   loop 2 invariant tried: ($k >= 1 ==> arg != "-h") && ($k >= 2 ==> arg != "--help") && len(searchSet) == 2
 
 // --- subcommand split (C04) -----------------------------------------------------------------------------------------
-//@ pure static func aliasOf(c *Cmd, a string) bool = exists j int :: 0 <= j && j < len(c.aliases) && c.aliases[j] == a
-//@ pure static func isSubAlias(c *Cmd, a string) bool = exists i int :: 0 <= i && i < len(c.commands) && aliasOf(c.commands[i], a)
+// AL / SUBS are the heap columns Cmd.aliases / Cmd.commands (commands are initialised lazily, so these change while parsing)
+//@ pure func aliasOf(c *Cmd, a string, AL array[*Cmd][]string) bool = exists j int :: 0 <= j && j < len(AL[c]) && AL[c][j] == a
+//@ pure func isSubAlias(c *Cmd, a string, SUBS array[*Cmd][]*Cmd, AL array[*Cmd][]string) bool =
+//@     exists i int :: 0 <= i && i < len(SUBS[c]) && aliasOf(SUBS[c][i], a, AL)
+// splitFrom: least index >= i whose token names a direct subcommand, else len(args)
+//@ pure rec func splitFrom(c *Cmd, args []string, i int, SUBS array[*Cmd][]*Cmd, AL array[*Cmd][]string) int =
+//@     (i < 0 || i >= len(args)) ? len(args) : (isSubAlias(c, args[i], SUBS, AL) ? i : splitFrom(c, args, i+1, SUBS, AL))
 
 //@ func (*Cmd).isAlias
 //@   requires recv: c != nil
-//@   ensures def: result == aliasOf(c, arg)
+//@   ensures def: result == aliasOf(c, arg, fieldHeap(c.aliases))
 //@   loop 1 invariant tried: forall j int :: 0 <= j && j < $k ==> c.aliases[j] != arg
 
 //@ func (*Cmd).getOptsAndArgs
 //@   requires recv: c != nil
 //@   requires subs: forall i int :: 0 <= i && i < len(c.commands) ==> c.commands[i] != nil
 //@   ensures range: 0 <= result && result <= len(args)
-//@   ensures before: forall j int :: 0 <= j && j < result ==> !isSubAlias(c, args[j])
-//@   ensures at: result < len(args) ==> isSubAlias(c, args[result])
+//@   ensures before: forall j int :: 0 <= j && j < result ==> !isSubAlias(c, args[j], fieldHeap(c.commands), fieldHeap(c.aliases))
+//@   ensures at: result < len(args) ==> isSubAlias(c, args[result], fieldHeap(c.commands), fieldHeap(c.aliases))
+//@   ensures def: result == splitFrom(c, args, 0, fieldHeap(c.commands), fieldHeap(c.aliases))
 //@   loop 1 invariant count: consumed == $k
-//@   loop 1 invariant before: forall j int :: 0 <= j && j < $k ==> !isSubAlias(c, args[j])
-//@   loop 2 invariant tried: forall i int :: 0 <= i && i < $k ==> !aliasOf(c.commands[i], arg)
+//@   loop 1 invariant before: forall j int :: 0 <= j && j < $k ==> !isSubAlias(c, args[j], fieldHeap(c.commands), fieldHeap(c.aliases))
+//@   loop 1 invariant def: splitFrom(c, args, $k, fieldHeap(c.commands), fieldHeap(c.aliases)) == splitFrom(c, args, 0, fieldHeap(c.commands), fieldHeap(c.aliases))
+//@   loop 2 invariant tried: forall i int :: 0 <= i && i < $k ==> !aliasOf(c.commands[i], arg, fieldHeap(c.aliases))
 
 //@ func (*Cmd).isFirstItemAmong
 //@   ensures def: result == (len(args) > 0 && (exists j int :: 0 <= j && j < len(searchSet) && searchSet[j] == args[0]))
@@ -112,6 +119,10 @@ package cli
 //@        valueString(arg.Value, implements(arg.Value, "values.DefaultValued") ? t0 + 1 : t0))
 //@   panics invalid: isType(panicval, "string")
 
+// noFlow: none of the events added since t0 is the start of a flow run (Step.Run) or of a validation (State.Parse)
+//@ pure func noFlow(t0 trace, t trace) bool = len(t) >= len(t0) &&
+//@     (forall i int :: {t[i]} len(t0) <= i && i < len(t) ==> !isMark(t[i], "Run") && !isMark(t[i], "Parse"))
+
 // --- command initialisation (C16, C08, C17) -----------------------------------------------------------------------------------
 // A CmdInitializer is user code that declares options, arguments, sub-commands, Spec, Action ... through the public API.
 // It is modelled as an arbitrary change of the command-layer heap that re-establishes the invariant cmdWF.
@@ -121,8 +132,10 @@ package cli
 //@     (forall i int :: 0 <= i && i < len(OPTS[c]) ==> OPTS[c][i] != nil) &&
 //@     (forall i int :: 0 <= i && i < len(ARGS[c]) ==> ARGS[c][i] != nil) &&
 //@     (forall i int :: 0 <= i && i < len(SUBS[c]) ==> SUBS[c][i] != nil)
+//@ pure func allCmdWF(OPTS array[*Cmd][]*container.Container, ARGS array[*Cmd][]*container.Container, SUBS array[*Cmd][]*Cmd, OI array[*Cmd]map[string]*container.Container, AI array[*Cmd]map[string]*container.Container) bool =
+//@     forall q *Cmd :: {OPTS[q]} {ARGS[q]} {SUBS[q]} {OI[q]} {AI[q]} q != nil ==> cmdWF(q, OPTS, ARGS, SUBS, OI, AI)
 //@ func callback:Cmd.init(cmd)
-//@   ensures wf: cmdWF(cmd, fieldHeap(cmd.options), fieldHeap(cmd.args), fieldHeap(cmd.commands), fieldHeap(cmd.optionsIdx), fieldHeap(cmd.argsIdx))
+//@   ensures wf: allCmdWF(fieldHeap(cmd.options), fieldHeap(cmd.args), fieldHeap(cmd.commands), fieldHeap(cmd.optionsIdx), fieldHeap(cmd.argsIdx))
 
 // argNames: "ARG1 ARG2 ... " in declaration order
 //@ pure rec func argNames(args []*container.Container, n int, NAME array[*container.Container]string) string =
@@ -130,7 +143,10 @@ package cli
 
 //@ func (*Cmd).doInit
 //@   requires recv: c != nil
-//@   requires wf: cmdWF(c, fieldHeap(c.options), fieldHeap(c.args), fieldHeap(c.commands), fieldHeap(c.optionsIdx), fieldHeap(c.argsIdx))
+//@   requires wf: allCmdWF(fieldHeap(c.options), fieldHeap(c.args), fieldHeap(c.commands), fieldHeap(c.optionsIdx), fieldHeap(c.argsIdx))
+//@   logged
+//@   ensures wf: allCmdWF(fieldHeap(c.options), fieldHeap(c.args), fieldHeap(c.commands), fieldHeap(c.optionsIdx), fieldHeap(c.argsIdx))
+//@   ensures no-flow: noFlow(old(trace), trace)
 //@   ensures synthesised: old(c.init) == nil && old(c.Spec) == "" ==>
 //@       c.Spec == (len(c.options) > 0 ? "[OPTIONS] " : "") + argNames(c.args, len(c.args), fieldHeap(c.args[0].Name))
 //@   ensures explicit-kept: old(c.init) == nil && old(c.Spec) != "" ==> c.Spec == old(c.Spec)
@@ -140,3 +156,29 @@ package cli
 //@   maypanic
 //@   loop 2 invariant spec: c.Spec == (len(c.options) > 0 ? "[OPTIONS] " : "") + argNames(c.args, $k, fieldHeap(c.args[0].Name))
 //@   loop 2 invariant frame: old(c.init) == nil ==> frame(c.Spec)
+
+// --- help printing (C17; here only what Cmd.parse needs: printing help starts no flow and validates nothing) -----------------
+//@ func joinStrings
+//@   ensures any: len(result) >= 0
+//@ func formatEnvVarsForHelp
+//@   ensures any: len(result) >= 0
+//@ func formatOptNamesForHelp
+//@   requires recv: o != nil
+//@   ensures any: len(result) >= 0
+//@ func printTabbedRow
+//@   ensures no-flow: noFlow(old(trace), trace)
+//@   loop 1 invariant no-flow: noFlow(old(trace), trace)
+
+//@ func (*Cmd).printHelp
+//@   requires recv: c != nil
+//@   requires wf: allCmdWF(fieldHeap(c.options), fieldHeap(c.args), fieldHeap(c.commands), fieldHeap(c.optionsIdx), fieldHeap(c.argsIdx))
+//@   logged
+//@   maypanic
+//@   ensures wf: allCmdWF(fieldHeap(c.options), fieldHeap(c.args), fieldHeap(c.commands), fieldHeap(c.optionsIdx), fieldHeap(c.argsIdx))
+//@   ensures no-flow: noFlow(old(trace), trace)
+//@   loop 1 invariant no-flow: noFlow(old(trace), trace)
+//@   loop 2 invariant no-flow: noFlow(old(trace), trace)
+//@   loop 3 invariant no-flow: noFlow(old(trace), trace)
+//@   loop 3 invariant listed: forall i int :: {commands[i]} 0 <= i && i < len(commands) ==> commands[i] != nil
+//@   loop 3 invariant wf: allCmdWF(fieldHeap(c.options), fieldHeap(c.args), fieldHeap(c.commands), fieldHeap(c.optionsIdx), fieldHeap(c.argsIdx))
+//@   loop 4 invariant no-flow: noFlow(old(trace), trace)
